@@ -467,7 +467,10 @@ Section XEval.
         match c with
         | CQURotation => match ilookup info i with Some p => rot_ok p si | None => false end
         | CHWP => is_stokes si
-        | CLinearPolarizer => match pol_eval x64 si with Some s' => struct_eqb s' so | None => false end
+        (* 0.5 * x on integer data is WEAKLY typed (a later factor then decides the dtype): outside the property *)
+        | CLinearPolarizer =>
+            forallb sd_inexact (flatten si) &&
+            match pol_eval x64 si with Some s' => struct_eqb s' so | None => false end
         | CDiagonal => scal_ok i si
         | CToeplitz => match ilookup info i with Some p => toep_ok p si | None => false end
         (* their declaration is the evaluation itself; wider blocks / values are outside the property
